@@ -38,7 +38,7 @@ type tsAny struct {
 	V interface{} `json:"v"`
 }
 
-var typedKnown = []string{"build", "point", "t", "any", "x", "a", "string"}
+var typedKnown = []string{"build", "point", "t", "any", "x", "a", "string", "byval", "nilp", "nilmap", "valmap", "filled", "chan"}
 
 func typedMaker(t string) interface{} {
 	switch t {
@@ -54,6 +54,19 @@ func typedMaker(t string) interface{} {
 		return new([]interface{})
 	case "string":
 		return new(string)
+	// result shapes a TypeMaker may have besides "nil" and "pointer to a fresh value"
+	case "byval":
+		return tsPoint{} // not a pointer: nothing can be stored
+	case "nilp":
+		return (*tsPoint)(nil) // a non-nil interface holding a nil pointer
+	case "nilmap":
+		return map[string]int(nil)
+	case "valmap":
+		return map[string]int{}
+	case "filled":
+		return &tsPoint{X: 9, Y: 9} // decoding merges into what is there
+	case "chan":
+		return new(chan int)
 	}
 	return nil
 }
